@@ -94,9 +94,11 @@ CLAIMED = {
         technique="Coq proof (LTS invariants by induction over label lists; coroutine shape produced by an AST translator and interpreted by the model) + per-handle trace acceptance against the real Concurrency on a single-step event loop + trace acceptance of real session workloads",
         ref='6/C13'),
     'C11': dict(
-        text=("Proof (partial): TimeoutAfter.__aexit__ is TRANSLATED from the Python source on every run into a list of decisions; an "
+        text=("Proof (partial): TimeoutAfter.__aexit__, _set_task_deadline and _unset_task_deadline are TRANSLATED from the Python source on every run "
+              "(decision list / statement lists); an "
               "interpreter runs it and a theorem shows that for every exception in flight, kind of block, recorded timeout and "
-              "'uncaught' flag it decides as the model's aexit does. On the model: "
+              "'uncaught' flag __aexit__ decides as the model's aexit does, and that the two bookkeeping functions equal the model's "
+              "set_deadline / unset_deadline for every state. On the model: "
               "for the big-step one-task semantics of nested timeout/ignore blocks (literal transcription of "
               "_set/_unset_task_deadline and __aexit__), for ALL programs and states: the deadline stack is restored by every "
               "fragment, the armed timer is always the minimum of the active deadlines, a block exit re-arms for the minimum "
